@@ -59,6 +59,12 @@ FORMATS = {
         "ignore": [r"\s*", r"\s*(?://.*)?", None],
         "id_src": [1], "src": [2, 3, 4, 1, 0], "sep": " ",
     },
+    # a liberal line format: commented-out entries match BOTH expressions (the ignore expression wins)
+    "loose": {
+        "regex": r"(?P<id>\S+)[ \t]+(?P<a>\S+)(?:[ \t]+(?P<b>\S.*))?",
+        "ignore": [r"#.*", r"\s*|#.*|//.*", r"\S+ +aa", None],
+        "id_src": ["id", 1], "src": ["a", "b", 2, 3, "id", 0], "sep": " ",
+    },
     "eq": {
         "regex": r"(?P<id>[A-Za-z0-9-]+)=([^/]*)(?:/(?P<x>[^/]*))?(/)?",
         "ignore": [r"|;.*", None],
@@ -455,7 +461,7 @@ def render_line(rng, fmt, ident=None):
         if k < 0.7 or fmt == "csvopt":
             return f"{ident};{vals[0]};{vals[1]}"
         return f"{ident};{vals[0]};{vals[1]};{vals[2]}"
-    if fmt == "kv":
+    if fmt in ("kv", "loose"):
         a = vals[0].replace(" ", "_").replace("\t", "_").replace("\x0b", "_") or "-"
         if k < 0.4:
             return f"{ident} {a}"
@@ -477,6 +483,9 @@ def gen_lines(rng, fmt, n=None, clean=False):
         k = rng.random()
         if clean or k < 0.62:
             out.append(render_line(rng, fmt))
+        elif k < 0.72 and fmt == "loose" and rng.random() < 0.7:
+            # a commented-out entry: it matches the line format as well
+            out.append(rng.choice(["#", "# ", "//"]) + render_line(rng, fmt))
         elif k < 0.72:
             out.append(rng.choice(["# comment", "#", "// c", ";x", "  "]))
         elif k < 0.8:
